@@ -137,3 +137,18 @@ LEVEL_TEXT = ("Machine-checked theorems over all finite revision graphs: the mod
               "down-only digraph, every 3-revision digraph with dependencies and seeded random larger graphs on each run.")
 LEVEL_NOTE = ("Trusted: Coq kernel+vm_compute, the hand-written model (tied by correspondence, exhaustive only up to the stated sizes), "
               "the Python harness encoders. Dependencies are given already resolved to ids; missing references are out of scope.")
+
+
+def canary(human, rec):
+    """corrupted outputs the decider must reject: flipped verdict, a head dropped / a non-head added"""
+    out = rec["out"]
+    if "err" in out:
+        return ["Loaded (mkLoaded [] [] [] [])"]
+    l = out["loaded"]
+    bad = ["LoadErr ECycle"]
+    if l["heads"]:
+        bad.append("Loaded (mkLoaded %s %s %s %s)" % (cf.nlist(l["heads"][1:]), cf.nlist(l["bases"]), cf.nlist(l["real_heads"]), cf.nlist(l["real_bases"])))
+    non_bases = [r["id"] for r in human if r["id"] not in l["real_bases"]]
+    if non_bases:
+        bad.append("Loaded (mkLoaded %s %s %s %s)" % (cf.nlist(l["heads"]), cf.nlist(l["bases"]), cf.nlist(l["real_heads"]), cf.nlist(l["real_bases"] + non_bases[:1])))
+    return bad
